@@ -42,6 +42,7 @@ FailsPrimR(e) ==
              \o Chk(e.rout # "ok" \/ e.left = Len(e.bytes) - (p.pos - 1), "read consumed the wrong number of bytes")
              \o Chk(e.sout = "ok" /\ e.sleft = Len(e.bytes) - (p.pos - 1), "skip consumed the wrong number of bytes")
         ELSE Chk(e.rout = "err", "truncated / over-long / overflowing / out-of-width varint accepted: " \o p.st)
+             \o Chk(p.st = "ok" \/ e.sout = "err", "skip accepted a truncated / over-long / overflowing varint: " \o p.st)
       ELSE IF e.codec \in {"float", "double"} THEN
         LET w == WidthOf(e.codec) IN
         IF Len(e.bytes) >= w THEN
